@@ -176,7 +176,29 @@ def probe_fock_properties(inp: Dict[str, Any]) -> Dict[str, Any]:
     return {"ok": not bad, "observed": bad, "expected": "G linear, symmetric, self-adjoint, rotation covariant; UHF exchange with spin densities", "predicate": "", "fields": {"kinds": sorted(kinds), "method": inp["method"]}}
 
 
-PROBES = {"fock_properties": probe_fock_properties}
+def probe_scf_reference(inp: Dict[str, Any]) -> Dict[str, Any]:
+    """the density the package returns as converged reproduces the reported electronic energy under an INDEPENDENT NDDO functional and is a
+    stationary point of it ([F_ref[P], P] = 0): whichever solver, backward mode, batch layout or packing path produced it"""
+    from .. import oracle_scf
+
+    kw = {}
+    if "scf_backward" in inp:
+        kw["scf_backward"] = inp["scf_backward"]
+    sp = esh.settings(method=inp["method"], eps=1e-10, converger=inp["converger"], **kw)
+    o = oracle_scf.check_member(inp["names"], inp["target"], sp, pad_to=inp.get("pad_to"))
+    bad = []
+    if o["notconverged"]:
+        return {"ok": True, "observed": ["not converged: flagged, skipped"], "expected": "", "predicate": "", "fields": {"kinds": [], "skipped": True}}
+    # (the package's overlaps use a truncated B series: energies agree to ~1e-6 relative only, see DESIGN 10.6)
+    if o["dE"] > 3e-5:
+        bad.append(f"reported electronic energy {o['E_pkg']:.8f} differs from the reference functional of the returned density {o['E_ref']:.8f} by {o['dE']:.3e} eV")
+    if o["commutator"] > 2e-5:
+        bad.append(f"the returned density is not a stationary point of the reference functional: |[F_ref, P]| = {o['commutator']:.3e}")
+    return {"ok": not bad, "observed": bad or [f"dE {o['dE']:.1e} [F,P] {o['commutator']:.1e}"], "expected": "E_pkg = E_ref[P], [F_ref[P], P] = 0", "predicate": "dE <= 3e-5 eV, commutator <= 2e-5",
+            "fields": {"kinds": ["scf_reference"] if bad else [], "method": inp["method"], "converger": inp["converger"][0], "scf_backward": inp.get("scf_backward", 0)}}
+
+
+PROBES = {"fock_properties": probe_fock_properties, "scf_reference": probe_scf_reference}
 
 
 def corr_fock_blocks(ctx: Ctx, drv):
@@ -333,6 +355,23 @@ def run(ctx: Ctx):
     ctx.extra["element_pairs_covered"] = {m: sorted({(a, b) for (mm, a, b) in covered if mm == m}) for m in methods}
     ctx.extra["element_pairs_skipped"] = sorted(skipped)[:60]
     pcases = [{"names": [["h2o"], ["ch2o", "nh3"], ["ch3cl"], ["so2", "h2"]][i % 4], "method": ["AM1", "MNDO", "PM3", "PM6_SP"][i % 4], "seed": int(rng.integers(0, 10**6))} for i in range(8 if ctx.thorough else 3)]
+    # SCF energy = stationary value of an independent functional: solver x backward mode x batch layout (equal orbital count, different heavy/H split; padding)
+    layouts = [(["ch4", "co"], 0), (["co", "ch4"], 1), (["c2h4", "so2"], 1), (["h2o"], 0), (["ch2o", "h2o"], 1), (["nh3", "hcn", "h2"], 1), (["ch3cl"], 0), (["h2s", "hcl"], 0)]
+    scases = []
+    for i in range(24 if ctx.thorough else 8):
+        names, tgt = layouts[int(rng.integers(0, len(layouts)))] if i >= 3 else layouts[i]
+        scases.append({"names": names, "target": tgt, "method": ["MNDO", "AM1", "PM3"][i % 3], "converger": [[1], [0, 0.3], [2], [1, 0.5, 0.1, 12]][int(rng.integers(0, 4))],
+                       "scf_backward": int(rng.integers(0, 3))})
+    # every backward mode with the adaptive solver on a molecule with heavy atoms (each solver entry point has its own call site)
+    for sb in (0, 1, 2):
+        scases.append({"names": [["ch2o"], ["hcn"], ["h2o"]][(sb + ctx.seed) % 3], "target": 0, "method": ["PM3", "AM1", "MNDO"][(sb + ctx.seed) % 3], "converger": [1], "scf_backward": sb})
+        scases.append({"names": ["ch2o"], "target": 0, "method": "PM3", "converger": [[0, 0.2], [2]][sb % 2], "scf_backward": sb})
+    for c, r in zip(scases, mdh.pmap(probe_scf_reference, scases, timeout=1500)):
+        if isinstance(r, Exception) or r is None:
+            ctx.obligation("probe scf_reference evaluated", False, repr(r)[-1500:], kind="harness")
+            continue
+        ctx.probe_case("scf_reference", c, r["ok"], fields=r["fields"], observed=r["observed"], expected=r["expected"], predicate=r["predicate"], stratum=f"{c['method']}/sb{c['scf_backward']}/conv{c['converger'][0]}",
+                       nontrivial=not r["fields"].get("skipped", False))
     for c, r in zip(pcases, mdh.pmap(probe_fock_properties, pcases)):
         if isinstance(r, Exception) or r is None:
             ctx.obligation("probe fock_properties evaluated", False, repr(r)[-1500:], kind="harness")
